@@ -42,6 +42,10 @@ fn main() {
 	if argv.len() < 3 {
 		usage();
 	}
+	if argv[1].starts_with("child-") {
+		// hidden sub-commands used by C12 part `interrupt` (run under the fsfault LD_PRELOAD shim)
+		std::process::exit(gwv::props::c12::child_main(&argv));
+	}
 	rt::install_panic_hook();
 	gwv::world::init_globals();
 	let mut tier = Tier::Quick;
